@@ -316,6 +316,7 @@ CHECKS = {
             rapid("TestC18_Malformed", 20000, 1000000),
             fuzz("FuzzC18Parse", 60),
             rapid("TestC18_WireGates", 480, 40000, 8, 16),
+            rapid("TestC18_SerialClose", 300, 20000, 4, 16),
         ],
         min_share=dict(any={"wire_serial_close": ["wire_cases", 0.015], "wire_parallel_close": ["wire_cases", 0.08],
                             "wire_change_streams_on": ["wire_cases", 0.04], "wire_expiry_off": ["wire_cases", 0.15]}),
